@@ -36,6 +36,10 @@ pub trait AnyMap {
     fn put(&mut self, k: &[u8], v: &[u8]) -> io::Result<()>;
     fn get(&mut self, k: &[u8]) -> io::Result<Option<Vec<u8>>>;
     fn get_string(&mut self, k: &[u8]) -> io::Result<Option<String>>;
+    fn put_string(&mut self, k: &[u8], v: &str) -> io::Result<()>;
+    fn del_string(&mut self, k: &[u8]) -> io::Result<Option<String>>;
+    fn bulk_get_string(&mut self, ks: &[Vec<u8>]) -> io::Result<Vec<Option<String>>>;
+    fn bulk_del_string(&mut self, ks: &[Vec<u8>]) -> io::Result<Vec<Option<String>>>;
     fn del(&mut self, k: &[u8]) -> io::Result<Option<Vec<u8>>>;
     fn inc(&mut self, k: &[u8]) -> io::Result<bool>;
     fn len(&self) -> io::Result<u64>;
@@ -138,6 +142,24 @@ where
         let key = self.key(k);
         self.m.get_string(&key)
     }
+    fn put_string(&mut self, k: &[u8], v: &str) -> io::Result<()> {
+        let key = self.key(k);
+        self.m.put_string(&key, v)
+    }
+    fn del_string(&mut self, k: &[u8]) -> io::Result<Option<String>> {
+        let key = self.key(k);
+        self.m.delete_string(&key)
+    }
+    fn bulk_get_string(&mut self, ks: &[Vec<u8>]) -> io::Result<Vec<Option<String>>> {
+        let keys: Vec<KT> = ks.iter().map(|k| self.key(k)).collect();
+        let refs: Vec<&KT> = keys.iter().collect();
+        self.m.bulk_get_string(&refs)
+    }
+    fn bulk_del_string(&mut self, ks: &[Vec<u8>]) -> io::Result<Vec<Option<String>>> {
+        let keys: Vec<KT> = ks.iter().map(|k| self.key(k)).collect();
+        let refs: Vec<&KT> = keys.iter().collect();
+        self.m.bulk_delete_string(&refs)
+    }
     fn del(&mut self, k: &[u8]) -> io::Result<Option<Vec<u8>>> {
         let key = self.key(k);
         self.m.delete(&key)
@@ -167,7 +189,11 @@ where
             2 => self.collect(self.m.keys(), |k: &KT| brepr(k.as_bytes()), len0),
             3 => self.collect(self.m.values(), |v: &Vec<u8>| brepr(v), len0),
             4 => self.collect(self.m.clone().into_iter(), kv, len0),
-            _ => self.collect((&self.m).into_iter(), kv, len0),
+            5 => self.collect((&self.m).into_iter(), kv, len0),
+            _ => {
+                let it = (&mut self.m).into_iter();
+                self.collect(it, kv, len0)
+            }
         }
     }
     fn stats(&self) -> io::Result<String> {
@@ -361,6 +387,16 @@ fn back_vu64(k: &DbVu64) -> bool {
 
 pub fn open_map(db: &FileDb, kt: Kt, name: &str, p: &Params) -> io::Result<Box<dyn AnyMap>> {
     let fp = to_params(p);
+    if p.bk == Bk::Default && p.default_bufs {
+        // the parameterless entry points
+        return Ok(match kt {
+            Kt::Str => Box::new(TM { m: db.db_map_string(name)?, mk: mk_str, back_ok: back_any, tick: 0 }),
+            Kt::Bytes => Box::new(TM { m: db.db_map_bytes(name)?, mk: mk_bytes, back_ok: back_any, tick: 0 }),
+            Kt::U64 => Box::new(TM { m: db.db_map_u64(name)?, mk: mk_u64, back_ok: back_u64, tick: 0 }),
+            Kt::I64 => Box::new(TM { m: db.db_map_i64(name)?, mk: mk_i64, back_ok: back_i64, tick: 0 }),
+            Kt::Vu64 => Box::new(TM { m: db.db_map_vu64(name)?, mk: mk_vu64, back_ok: back_vu64, tick: 0 }),
+        });
+    }
     Ok(match kt {
         Kt::Str => Box::new(TM { m: db.db_map_string_with_params(name, fp)?, mk: mk_str, back_ok: back_any, tick: 0 }),
         Kt::Bytes => Box::new(TM { m: db.db_map_bytes_with_params(name, fp)?, mk: mk_bytes, back_ok: back_any, tick: 0 }),
@@ -452,6 +488,19 @@ impl Impl {
             Op::Put(k, v) => res(self.h().put(&k.bytes(), &v.bytes()), |_| "ok".into()),
             Op::Get(k) => res(self.h().get(&k.bytes()), |r| repr_opt(&r)),
             Op::GetString(k) => res(self.h().get_string(&k.bytes()), |r| repr_opt(&r.map(|s| s.into_bytes()))),
+            Op::PutString(k, v) => match String::from_utf8(v.bytes()) {
+                Ok(sv) => res(self.h().put_string(&k.bytes(), &sv), |_| "ok".into()),
+                Err(_) => "bad-op".into(),
+            },
+            Op::DelString(k) => res(self.h().del_string(&k.bytes()), |r| repr_opt(&r.map(|s| s.into_bytes()))),
+            Op::BulkGetString(ks) => {
+                let ks: Vec<Vec<u8>> = ks.iter().map(|k| k.bytes()).collect();
+                res(self.h().bulk_get_string(&ks), |v| v.iter().map(|o| repr_opt(&o.clone().map(|s| s.into_bytes()))).collect::<Vec<_>>().join("|"))
+            }
+            Op::BulkDelString(ks) => {
+                let ks: Vec<Vec<u8>> = ks.iter().map(|k| k.bytes()).collect();
+                res(self.h().bulk_del_string(&ks), |v| v.iter().map(|o| repr_opt(&o.clone().map(|s| s.into_bytes()))).collect::<Vec<_>>().join("|"))
+            }
             Op::Del(k) => res(self.h().del(&k.bytes()), |r| repr_opt(&r)),
             Op::Inc(k) => res(self.h().inc(&k.bytes()), |b| b.to_string()),
             Op::Len => res(self.h().len(), |n| n.to_string()),
